@@ -14,6 +14,12 @@ GHOST("w_count", "Int", "number of completed os.write calls")
 GHOST("moves", "Int", "number of completed shutil.move calls")
 GHOST("mv_src", "Str", "source of the most recent move")
 GHOST("mv_dst", "Str", "destination of the most recent move")
+GHOST("mv_wseq", "Int", "number of completed os-level writes at the moment of the most recent move")
+GHOST("pend", "Int", "writes sitting in a buffered file object, not yet flushed to the descriptor")
+GHOST("pend_data", "Bytes", "data of the most recent buffered write")
+GHOST("pend_fd", "Int", "descriptor it will go to")
+GHOST("truncs", "Int", "files opened for writing by path (truncated in place at once)")
+GHOST("trunc_path", "Str", "path of the most recent one")
 GHOST("mw_calls", "Int", "module_writer invocations")
 GHOST("mw_data", "Bytes", "its most recent first argument")
 GHOST("mw_path", "Str", "its most recent second argument")
@@ -52,11 +58,29 @@ ASSUME("os:write", params={"fd": "Int", "data": "Bytes"}, returns="Int",
        raises={"*": {"ensures": [("not-counted", "G.w_count == old(G.w_count)")]}},
        note="os.write writes all of data or raises (a short count is assumed away: listed assumption); a crash midway leaves a partial TEMP file only")
 ASSUME("os:close", params={"fd": "Int"}, raises={"*": {}})
+CLASS("io:BufferedWriter", name="BFile", fields={"fd": "Int"})
+_FLUSH = "G.w_count == old(G.w_count) + old(G.pend) and G.pend == 0 and implies(old(G.pend) > 0, G.w_fd == old(G.pend_fd) and G.w_data == old(G.pend_data))"
+ASSUME("os:fdopen", params={"fd": "Int", "mode": "Str='r'"}, returns="BFile", ensures=[("wraps", "fresh(result) and result.fd == fd")],
+       raises={"*": {}}, note="a buffered file object over the descriptor: data reaches the descriptor at flush/close, not at write")
+ASSUME("builtins:open", params={"file": "Str", "mode": "Str='r'"}, returns="BFile", modifies=["G.truncs", "G.trunc_path"],
+       ensures=[("opened", "fresh(result) and result.fd == fd_of_path(file)"),
+                ("write-modes-truncate-in-place", "implies(str_contains(mode, 'w'), G.truncs == old(G.truncs) + 1 and G.trunc_path == file)"),
+                ("read-modes-do-not", "implies(not str_contains(mode, 'w'), G.truncs == old(G.truncs))")],
+       raises={"*": {"ensures": [("maybe-truncated", "G.truncs <= old(G.truncs) + 1")]}},
+       note="open(path, 'w...') empties the file at that very path at once")
+ASSUME("io:BufferedWriter.write", params={"self": "BFile", "data": "Bytes"}, returns="Int", modifies=["G.pend", "G.pend_data", "G.pend_fd"],
+       ensures=[("buffered", "G.pend == old(G.pend) + 1 and G.pend_data == data and G.pend_fd == self.fd")],
+       raises={"*": {"ensures": [("not-buffered", "G.pend == old(G.pend)")]}},
+       note="buffered write: nothing reaches the file before flush/close (the worst case for crash consistency)")
+for _m, _ps in (("flush", {"self": "BFile"}), ("close", {"self": "BFile"}), ("__exit__", {"self": "BFile", "a": "Any", "b": "Any", "c": "Any"})):
+    ASSUME("io:BufferedWriter." + _m, params=_ps, returns="Any", modifies=["G.pend", "G.w_count", "G.w_fd", "G.w_data"],
+           ensures=[("flushed", _FLUSH)], raises={"*": {"ensures": [("lost", "G.w_count == old(G.w_count)")]}})
+ASSUME("io:BufferedWriter.__enter__", params={"self": "BFile"}, returns="BFile", ensures=[("self", "same(result, self)")])
 for _k in ("os.path:dirname", "posixpath:dirname"):
     ASSUME(_k, params={"p": "Str"}, returns="Str", ensures=[("def", "result == pdirname(p)")])
 ASSUME("shutil:move", params={"src": "Str", "dst": "Str"}, returns="Any",
-       modifies=["G.moves", "G.mv_src", "G.mv_dst"],
-       ensures=[("moved", "G.moves == old(G.moves) + 1 and G.mv_src == src and G.mv_dst == dst")],
+       modifies=["G.moves", "G.mv_src", "G.mv_dst", "G.mv_wseq"],
+       ensures=[("moved", "G.moves == old(G.moves) + 1 and G.mv_src == src and G.mv_dst == dst and G.mv_wseq == G.w_count")],
        raises={"*": {"ensures": [("atomic", "G.moves == old(G.moves)")]}},
        note="within one directory shutil.move is os.rename: atomic, all or nothing")
 
@@ -65,17 +89,18 @@ _NOFS = "G.tmp_made == old(G.tmp_made) and G.w_count == old(G.w_count) and G.mov
 C("mako.template:_compile_module_file",
   params={"template": "Template", "text": "Any", "filename": "Opt[Str]", "outputpath": "Str", "module_writer": "Opt[Fun[module_writer]]"},
   modifies=["G.tmp_made", "G.tmp_name", "G.tmp_dir", "G.tmp_fd", "G.w_fd", "G.w_data", "G.w_count", "G.moves", "G.mv_src", "G.mv_dst",
-            "G.mw_calls", "G.mw_data", "G.mw_path"],
+            "G.mw_calls", "G.mw_data", "G.mw_path", "G.mv_wseq", "G.pend", "G.pend_data", "G.pend_fd"],
   ensures=[("custom-writer-gets-encoded-source-and-path",
             "implies(module_writer is not None, G.mw_calls == old(G.mw_calls) + 1 and G.mw_path == outputpath and G.mw_data == encoded_source(template, text, filename) and %s)" % _NOFS),
            ("default-writer-not-used-with-custom", "implies(module_writer is not None, G.moves == old(G.moves))"),
            ("temp-in-the-target-directory", "implies(module_writer is None, G.tmp_made == old(G.tmp_made) + 1 and G.tmp_dir == pdirname(outputpath))"),
            ("whole-source-written-to-the-temp", "implies(module_writer is None, G.w_count == old(G.w_count) + 1 and G.w_fd == G.tmp_fd and G.w_data == encoded_source(template, text, filename))"),
            ("one-atomic-move-of-the-temp-onto-the-target", "implies(module_writer is None, G.moves == old(G.moves) + 1 and G.mv_src == G.tmp_name and G.mv_dst == outputpath)"),
+           ("moved-only-after-the-data-had-reached-the-temp", "implies(module_writer is None, G.mv_wseq == old(G.w_count) + 1 and G.pend == old(G.pend))"),
            ("custom-writer-untouched-by-default-path", "implies(module_writer is None, G.mw_calls == old(G.mw_calls))")],
   raises={"*": {"ensures": [
       ("crash-point-invariant: target only ever replaced by a complete temp",
-       "G.moves == old(G.moves) or (G.moves == old(G.moves) + 1 and G.mv_dst == outputpath and G.mv_src == G.tmp_name and G.w_count == old(G.w_count) + 1 and G.w_data == encoded_source(template, text, filename) and G.w_fd == G.tmp_fd)"),
+       "G.moves == old(G.moves) or (G.moves == old(G.moves) + 1 and G.mv_dst == outputpath and G.mv_src == G.tmp_name and G.w_count == old(G.w_count) + 1 and G.w_data == encoded_source(template, text, filename) and G.w_fd == G.tmp_fd and G.mv_wseq == old(G.w_count) + 1)"),
       ("at-most-one-temp", "G.tmp_made <= old(G.tmp_made) + 1")]}},
   props=["C15", "C09"], native_skip=True)
 
@@ -126,7 +151,7 @@ CONTRACTS["mako.template:_compile_text"].call_ghost = {"ct_calls": 1}
 
 _STALE = "(not fs_exists(path) or fs_mtime(path) < fs_mtime(filename))"
 _WR = ["G.tmp_made", "G.tmp_name", "G.tmp_dir", "G.tmp_fd", "G.w_fd", "G.w_data", "G.w_count", "G.moves", "G.mv_src", "G.mv_dst",
-       "G.mw_calls", "G.mw_data", "G.mw_path"]
+       "G.mw_calls", "G.mw_data", "G.mw_path", "G.mv_wseq", "G.pend", "G.pend_data", "G.pend_fd"]
 
 # a second, counting view of the writer for its caller (same function, the ghost counter `compiles`
 # is incremented by the call rule; its own contract above is what is verified)
